@@ -62,7 +62,7 @@ Theorem C19_view_inverse :
   (forall m e, dec_ok m e = true -> parse_dec (trim_space (sanitize (fmt_dec m e))) = Some (m, e)) ->
   forall s e, wfs nss s = true -> wfd enum_ids dec_ok s e = true -> is_leaf s = false ->
   exists x, wtr2_doc nss enum_ids fmt_dec s e = Some x /\ doc_wf x = true /\
-            x2d_doc nss parse_dec false s x = Ok (pruned s e).
+            x2d_doc nss parse_dec false false s x = Ok (pruned s e).
 Proof. exact xml_view_inverse. Qed.
 Print Assumptions C19_view_inverse.
 
@@ -93,7 +93,7 @@ Theorem C19_xml_roundtrip :
   wfs nss s = true -> dflt_ok enum_ids dec_ok s = true -> is_leaf s = false ->
   wfd enum_ids dec_ok s d = true -> keys_distinct s d = true ->
   exists x, write_doc nss enum_ids fmt_dec false stream s d = Some x /\ doc_wf x = true /\
-            read_doc nss parse_dec false s x = Ok (norm s d).
+            read_doc nss parse_dec false false s x = Ok (norm s d).
 Proof. exact xml_roundtrip. Qed.
 Print Assumptions C19_xml_roundtrip.
 
@@ -111,23 +111,25 @@ Print Assumptions C19_norm_canon.
 Theorem C19_roundtrip_exec : forall nss ids stream s d, theorem_domain nss ids s d = true ->
   exists x back,
     write_doc nss ids dec_text false stream s d = Some x /\ doc_wf x = true /\
-    read_doc nss parse_dec_exact false s x = Ok back /\ same_tree s back d = true.
+    read_doc nss parse_dec_exact false false s x = Ok back /\ same_tree s back d = true.
 Proof. exact roundtrip_exec. Qed.
 Print Assumptions C19_roundtrip_exec.
 
 (** ** on input, sibling elements may be interleaved: any re-ordering, at any depth, that keeps
     same-named siblings in their relative order reads as the same tree *)
 Theorem C19_xml_interleave :
-  forall nss parse_dec trim_strings m kids x x', xequiv x x' ->
-  read_doc nss parse_dec trim_strings (SCont m kids) x = read_doc nss parse_dec trim_strings (SCont m kids) x'.
+  forall nss parse_dec trim_strings choose_own_only m kids x x', xequiv x x' ->
+  read_doc nss parse_dec trim_strings choose_own_only (SCont m kids) x =
+  read_doc nss parse_dec trim_strings choose_own_only (SCont m kids) x'.
 Proof. exact xml_interleave. Qed.
 Print Assumptions C19_xml_interleave.
 Theorem C19_xml_interleave_list :
-  forall nss parse_dec trim_strings m keys row x x',
+  forall nss parse_dec trim_strings choose_own_only m keys row x x',
   eff_ns [] x = eff_ns [] x' ->
   Forall2 xequiv (filter is_elem (xkids x)) (filter is_elem (xkids x')) ->
   is_elem x = true -> is_elem x' = true ->
-  read_doc nss parse_dec trim_strings (SList m keys row) x = read_doc nss parse_dec trim_strings (SList m keys row) x'.
+  read_doc nss parse_dec trim_strings choose_own_only (SList m keys row) x =
+  read_doc nss parse_dec trim_strings choose_own_only (SList m keys row) x'.
 Proof. exact xml_interleave_list. Qed.
 Print Assumptions C19_xml_interleave_list.
 
@@ -139,7 +141,7 @@ Example C19_hyps_met : theorem_domain ex_nss false ex_schema ex_data = true /\
 Proof. exact hyps_met. Qed.
 Example C19_roundtrip_instance :
   (match write_doc ex_nss false dec_text false true ex_schema ex_data with
-   | Some x => read_doc ex_nss parse_dec_exact false ex_schema x
+   | Some x => read_doc ex_nss parse_dec_exact false false ex_schema x
    | None => Err EOther
    end) = Ok ex_data.
 Proof. exact roundtrip_instance. Qed.
@@ -148,15 +150,26 @@ Proof. exact roundtrip_instance. Qed.
 Example C19_pinned_reader_refuted :
   exists back,
     (match write_doc ex_nss false dec_text false false ex_schema ex_data with
-     | Some x => read_doc ex_nss parse_dec_exact true ex_schema x
+     | Some x => read_doc ex_nss parse_dec_exact true false ex_schema x
      | None => Err EOther
      end) = Ok back /\ same_tree ex_schema back ex_data = false.
 Proof. exact pinned_reader_refuted. Qed.
 Example C19_pinned_stream_writer_refuted :
   exists back,
     (match write_doc ex_nss false dec_text true true ex_schema ex_data with
-     | Some x => read_doc ex_nss parse_dec_exact false ex_schema x
+     | Some x => read_doc ex_nss parse_dec_exact false false ex_schema x
      | None => Err EOther
      end) = Ok back /\ same_tree ex_schema back ex_data = false.
 Proof. exact pinned_stream_writer_refuted. Qed.
-Print Assumptions C19_pinned_stream_writer_refuted.
+Example C19_pinned_choose_refuted :
+  (match write_doc ex_nss false dec_text false false ex_choice_schema ex_choice_data with
+   | Some x => read_doc ex_nss parse_dec_exact false false ex_choice_schema x
+   | None => Err EOther
+   end) = Ok ex_choice_data /\
+  exists back,
+    (match write_doc ex_nss false dec_text false false ex_choice_schema ex_choice_data with
+     | Some x => read_doc ex_nss parse_dec_exact false true ex_choice_schema x
+     | None => Err EOther
+     end) = Ok back /\ same_tree ex_choice_schema back ex_choice_data = false.
+Proof. exact pinned_choose_refuted. Qed.
+Print Assumptions C19_pinned_choose_refuted.
